@@ -238,6 +238,9 @@ func ruleC03Eff(r *Run) {
 				if _, isStr := a.Type().Underlying().(*types.Basic); isStr {
 					continue
 				}
+				if isErrorType(a.Type()) {
+					continue // error values are immutable by contract: a callee can only read them (assumption listed in the evidence)
+				}
 				if c, why := e.classify(a); c == cShared {
 					if _, isFn := a.Type().Underlying().(*types.Signature); isFn {
 						continue
@@ -666,7 +669,22 @@ func ruleC03Pool(r *Run) {
 				}
 			}
 			if initCall == nil {
-				r.Check(rule, FuncName(f)+":Get->Init", w.InstrPos(g), false, "pooled context is used without Init (stale state of the previous request)")
+				// Init written out: every field of the pooled context is assigned before it is handed to the dispatcher
+				okPre, missing := false, ""
+				for _, cv := range ctxVals {
+					set, hand := preDispatchAssign(w, f, cv, 0)
+					if set == nil || hand == nil {
+						continue
+					}
+					okPre = true
+					for _, pth := range contextFieldPaths(w) {
+						if !set[pth] {
+							okPre = false
+							missing += " " + pth
+						}
+					}
+				}
+				r.Check(rule, FuncName(f)+":Get->Init", w.InstrPos(g), okPre, map[bool]string{true: "every field of the pooled context is assigned (in line, by the writer's reset and by Reset) on every path before the dispatcher sees it", false: "pooled context is used without Init (stale state of the previous request; not assigned before dispatch:" + missing + ")"}[okPre])
 				continue
 			}
 			okAll := true
